@@ -11,7 +11,8 @@ taken when an object is created and again at the end, so a change made by ANY ca
 Abstract call description (exactly the record the TLA+ module Session.tla uses):
   {ex: "A"|"B"|"C", typ: "spot"|"fut", lev: "l1"|"l2"|"l5", mode: "cross"|"iso", fee: "f0"|"f1"|"f2",
    bal: "b0"|"b1", warm: "w0"|"w1"|"w2", rt: "r0"|"r1"|"r2", sim: "step"|"fast",
-   hp: "none"|"full"|"part" (hyperparameters=None / every declared name / a strict subset), out: <outcome>}
+   hp: "none"|"full"|"part" (hyperparameters=None / every declared name / a strict subset),
+   gen: "none"|"logs"|"equity"|"hp"|"json"|"csv"|"tv" (which generate_* flag the call sets), out: <outcome>}
 outcomes (where the call ends):
   ok          returns normally
   cfgerr      config dict without 'fee'                   -> KeyError in _format_config (nothing installed yet)
@@ -47,7 +48,10 @@ ROUTES = {                                                       # (trading (sym
 }
 OUTCOMES = ('ok', 'cfgerr', 'routes', 'spacing', 'warmup', 'init', 'first', 'idle', 'reject', 'open', 'closed',
             'terminate')
-DIMS = ('ex', 'typ', 'lev', 'mode', 'fee', 'bal', 'warm', 'rt', 'sim', 'hp')
+DIMS = ('ex', 'typ', 'lev', 'mode', 'fee', 'bal', 'warm', 'rt', 'sim', 'hp', 'gen')
+GEN = {'none': {}, 'logs': {'generate_logs': True}, 'equity': {'generate_equity_curve': True},
+       'hp': {'generate_hyperparameters': True}, 'json': {'generate_json': True}, 'csv': {'generate_csv': True},
+       'tv': {'generate_tradingview': True}}
 # the hyperparameters argument; the strategies declare three names, the probe's with other defaults than the
 # earlier sessions' (a default written into a shared dict by one session would be used by the next)
 HP = {'none': None, 'full': {'every': 9, 'tp': 2, 'hold': 5}, 'part': {'every': 9}}
@@ -90,6 +94,7 @@ def make_strategy(plan, obs=None, defaults=None):
             super().__init__()
             self._seen_first = False
             self._opened_index = None
+            self._m = {}                  # what self.metrics said after the first closed trades
 
         def hyperparameters(self):
             return [{'name': 'every', 'type': int, 'min': 5, 'max': 20, 'default': defaults['every']},
@@ -124,7 +129,10 @@ def make_strategy(plan, obs=None, defaults=None):
                         shared=sorted((str(k), str(v)) for k, v in self.shared_vars.items()),
                         routes=[[x['exchange'], x['symbol'], x['timeframe']] for x in router.all_formatted_routes],
                         debug=bool(jh.is_debugging()), hp=[(k, self._hp(k)) for k in ('every', 'tp', 'hold')],
-                        first_index=self.index, first_time=int(self.time - T0) // MIN)
+                        first_index=self.index, first_time=int(self.time - T0) // MIN,
+                        state=dict(portfolio_value=self.portfolio_value, trades=len(self.trades),
+                                   daily_balances=len(self.daily_balances), vars=sorted(map(str, self.vars.items())),
+                                   class_state=class_state(type(self))))
             self.shared_vars['sessions_seen'] = self.shared_vars.get('sessions_seen', 0) + (1 if self.index == 0 else 0)
 
         def _signal(self):
@@ -141,8 +149,13 @@ def make_strategy(plan, obs=None, defaults=None):
             return (not self.is_spot_trading) and self.index % self._hp('every') == 2 and self._signal() < 0
 
         def _qty(self):
-            # 40 % of what the account can carry with its leverage; 6x that for the rejection outcome
-            budget = self.available_margin * self.leverage * (2.4 if out == 'reject' else 0.4)
+            # 25-40 % of what the account can carry with its leverage, steered by what self.metrics / self.trades /
+            # self.daily_balances said after the latest closed trade; 6x as much for the rejection outcome
+            share = 0.4
+            if self._m:
+                total, net, win, last_pnl, ndaily = self._m[max(self._m)]
+                share = 0.25 + 0.05 * ((int(abs(net)) + int(abs(last_pnl)) + total + ndaily) % 4)
+            budget = self.available_margin * self.leverage * (2.4 if out == 'reject' else share)
             return max(round(budget / self.price, 3), 0.001)
 
         def go_long(self):
@@ -167,8 +180,15 @@ def make_strategy(plan, obs=None, defaults=None):
 
         def on_close_position(self, order):
             self._opened_index = None
+            n = len(self.trades)
+            if n <= 2 and n not in self._m:          # adaptive sizing from the running metrics (pandas: only twice)
+                m = self.metrics
+                self._m[n] = (m['total'], m['net_profit'], m['win_rate'], self.trades[-1].pnl, len(self.daily_balances))
+                if obs is not None and self.symbol == 'BTC-USDT':
+                    obs.setdefault('metrics_seen', []).append(
+                        [n, m['total'], m['net_profit'], m['win_rate'], m['fee'], len(self.trades), self.trades[-1].pnl,
+                         len(self.daily_balances), self.portfolio_value, sorted(map(str, self.vars.items()))])
             if out == 'closed':
-                _ = self.metrics           # e.g. adaptive sizing from the running win rate
                 raise Boom('closed')
 
         def terminate(self):
@@ -198,6 +218,18 @@ class ArgPool:
             self.objs[key] = make()
             self.created[key] = fingerprint(self.objs[key], self)
         return self.objs[key], self.created[key]
+
+
+def class_state(cls):
+    """sizes of the mutable containers that live on the strategy's classes (class attributes are process state)"""
+    res = []
+    for c in cls.__mro__:
+        if c is object:
+            continue
+        for k, v in sorted(vars(c).items()):
+            if isinstance(v, (dict, list, set)) and not k.startswith('__') and k != '_abc_impl':
+                res.append('%s.%s:%d' % (c.__name__, k, len(v)))
+    return res
 
 
 def concrete(a, pool, strategy_cls=None, obs=None):
@@ -254,6 +286,7 @@ def concrete(a, pool, strategy_cls=None, obs=None):
     kw['hyperparameters'], created['hyperparameters'] = pool.get(
         ('hp', a.get('hp', 'full')), lambda: None if HP[a.get('hp', 'full')] is None else dict(HP[a.get('hp', 'full')]))
     kw['fast_mode'] = (a['sim'] == 'fast')
+    kw['flags'] = dict(GEN[a.get('gen', 'none')])
     return kw, created
 
 
@@ -302,7 +335,7 @@ def fingerprints(kw, pool=None):
 def call(kw):
     from jesse.research import backtest
     return backtest(kw['config'], kw['routes'], kw['data_routes'], kw['candles'], warmup_candles=kw['warmup_candles'],
-                    hyperparameters=kw['hyperparameters'], fast_mode=kw['fast_mode'])
+                    hyperparameters=kw['hyperparameters'], fast_mode=kw['fast_mode'], **kw.get('flags', {}))
 
 
 def run_history_call(a, pool):
@@ -327,6 +360,11 @@ def r(x):
     if x is None:
         return 'None'
     return str(x)
+
+
+def text_or_digest(v):
+    t = repr(v)
+    return t if len(t) <= 120 else 'sha1:' + hashlib.sha1(t.encode()).hexdigest()[:16] + ':len%d' % len(t)
 
 
 def capture(final):
@@ -378,11 +416,14 @@ def run_probe(a, pool):
         m = res.get('metrics') or {}
         rec['metrics'] = [[str(k), r(v)] for k, v in sorted(m.items())]
         rec['result_keys'] = sorted(res.keys())
+        # the whole returned dict: every key other than 'metrics' with the text (short) or digest (long) of its value
+        rec['result_items'] = ['%s=%s' % (k, text_or_digest(res[k])) for k in sorted(res.keys()) if k != 'metrics']
     except Exception as e:
         rec['exc'] = type(e).__name__
         rec['exc_text'] = str(e)[:200]
         rec['metrics'] = []
         rec['result_keys'] = []
+        rec['result_items'] = []
         if 'orders' not in final:
             try:
                 capture(final)
